@@ -111,6 +111,39 @@ Depth(t) ==
                  IN CHOOSE m \in ds : \A d \in ds : d <= m)
 
 -----------------------------------------------------------------------------
+(* One-hole contexts: the constructor positions a type can sit in (used by  *)
+(* the generators of C05/C10/C18 and by the edges of type graphs, C07/C09)  *)
+
+L(cl) == [k |-> "leaf", c |-> cl]
+Named == [k |-> "named", n |-> "N"]
+
+Ctxs == {"opt", "vec", "hset", "bset", "ref", "res1",
+         "hmapv", "bmapv", "hmapk", "bmapk", "resok", "reserr",
+         "t2a", "t2b", "t3a", "t3b", "t3c", "t4a", "t4b", "t4c", "t4d"}
+
+Apply(cx, t) ==
+    CASE cx \in {"opt", "vec", "hset", "bset", "ref", "res1"} -> [k |-> cx, a |-> t]
+      [] cx = "hmapv"  -> [k |-> "hmap", a |-> L("str"), b |-> t]
+      [] cx = "bmapv"  -> [k |-> "bmap", a |-> L("str"), b |-> t]
+      [] cx = "hmapk"  -> [k |-> "hmap", a |-> t, b |-> L("num")]
+      [] cx = "bmapk"  -> [k |-> "bmap", a |-> t, b |-> L("bool")]
+      [] cx = "resok"  -> [k |-> "res", a |-> t, b |-> L("str")]
+      [] cx = "reserr" -> [k |-> "res", a |-> L("num"), b |-> t]
+      [] cx = "t2a" -> [k |-> "tup", ts |-> <<t, L("num")>>]
+      [] cx = "t2b" -> [k |-> "tup", ts |-> <<L("str"), t>>]
+      [] cx = "t3a" -> [k |-> "tup", ts |-> <<t, L("num"), L("bool")>>]
+      [] cx = "t3b" -> [k |-> "tup", ts |-> <<L("str"), t, L("bool")>>]
+      [] cx = "t3c" -> [k |-> "tup", ts |-> <<L("str"), L("num"), t>>]
+      [] cx = "t4a" -> [k |-> "tup", ts |-> <<t, L("num"), L("bool"), L("str")>>]
+      [] cx = "t4b" -> [k |-> "tup", ts |-> <<L("str"), t, L("bool"), L("num")>>]
+      [] cx = "t4c" -> [k |-> "tup", ts |-> <<L("str"), L("num"), t, L("bool")>>]
+      [] cx = "t4d" -> [k |-> "tup", ts |-> <<L("str"), L("num"), L("bool"), t>>]
+
+\* serde_json object keys must be strings or integers
+CtxOK(cx, t) == cx \in {"hmapk", "bmapk"} => (t.k = "leaf" /\ t.c \in {"str", "num"})
+
+
+-----------------------------------------------------------------------------
 (* TypeScript side: what an emitted (parsed) type AST denotes.  The AST is  *)
 (* produced by the harness parser with TypeScript's own precedence, so      *)
 (* `A | null[]' arrives as union(A, arr(null)).                             *)
